@@ -48,7 +48,7 @@ theorem head_only_own (ops : List Op) (w : WfOps ops) (t : List Nat) (c : Nat) (
   · have ht' : NulFree t := hasNul_eq_false_iff.1 (by simpa using ht)
     rw [head_spec (after_inv w).k ht' hc] at hh
     have := List.mem_of_getLast? hh
-    simpa using (List.mem_filter.1 this).2
+    simpa [topicFrames] using (List.mem_filter.1 this).2
 
 /-- only the explicit all-contexts read sees every context -/
 theorem all_contexts_sees_all (ops : List Op) (w : WfOps ops) :
